@@ -579,11 +579,14 @@ def engine_sites(nn, mode):
     return out
 
 
-def check_container_casts(r, rule, nn):
+def check_container_casts(r, rule, nn, engine_functions=None):
     """Lint, recognisably wrong whatever the surrounding shape: a caller-supplied container of sequences is converted with an explicit element
     type that is the dtype of another array or a fixed-width string type - numpy string arrays built from lists have the width of their
     longest element, longer sequences are silently truncated by such a cast."""
+    classes = {nn.P.functions[x].cls for x in (engine_functions or ()) if nn.P.functions[x].cls}
     for q in [x for x in nn.P.functions if x.startswith(MOD)]:
+        if engine_functions is not None and q not in engine_functions and nn.P.functions[q].cls not in classes:
+            continue          # only the engines this property is about
         s = nn.summary(q)
         seen = set()
         pool = [v for e in s.events for v in e.data.values() if isinstance(v, tuple)] + [s.ret]
@@ -614,7 +617,11 @@ def run_fga(r, prop, cds, labels=None, floor=None):
     """FGA / IST obligations of property ``prop`` for the modes whose custom_distance class is in ``cds``."""
     nn = get_nn(r)
     n = 0
-    check_container_casts(r, prop + "-IST", nn)
+    qs = set()
+    for mode in MODES:
+        if mode[0] in cds:
+            qs |= {st.q for label, st, *_ in engine_sites(nn, mode) if labels is None or label in labels}
+    check_container_casts(r, prop + "-IST", nn, qs)
     for mode in MODES:
         if mode[0] not in cds:
             continue
@@ -1224,10 +1231,13 @@ def check_kd(r, rule, modes=None):
     # the rows may be stacked into an array first: np.asarray / np.array / np.stack / np.vstack / list of the row list keep row k at row k
     while mat is not None and is_call(mat) and head(strip(mat[1])) == "glob" and strip(mat[1])[1] in ("numpy.asarray", "numpy.array", "numpy.stack", "numpy.vstack", "builtins.list", "builtins.tuple") and mat[2]:
         mat = strip(mat[2][0])
-    okm = mat is not None and head(mat) == "comp" and len(mat[3]) == 1 and not mat[3][0][1] and is_call(mat[2], MOD + "_histogram_encode") \
-        and strip(strip(mat[2])[2][0]) == mat[3][0][0] and strip_all(mat[3][0][0][3]) == strip_all(targs[0])
+    # (which function encodes a row is the business of the encoder rule; here: one row per element, in order, of the same container)
+    okm = mat is not None and head(mat) == "comp" and len(mat[3]) == 1 and not mat[3][0][1] and any(x == mat[3][0][0] for x in walk(mat[2])) \
+        and (not is_call(mat[2], MOD + "_histogram_encode") or strip(strip(mat[2])[2][0]) == mat[3][0][0]) and strip_all(mat[3][0][0][3]) == strip_all(targs[0])
     if mat is None or head(mat) != "comp":
         r.rep.require(False, f"{q}: the point matrix {show(mat, 60)} is not a comprehension of encoded rows; cannot decide [{rule}-CFG]")
+    elif len(mat[3]) == 1 and not any(x == mat[3][0][0] for x in walk(mat[2])):
+        r.rep.require(False, f"{q}: the rows of the point matrix are filled in place ({show(mat[2], 50)}): which element a row encodes is not readable from the row expression; cannot decide [{rule}-CFG]")
     else:
         r.rep.ob(rule + "-CFG", q, okm, "row k of the matrix encodes element k of the container whose positions the workers report", wh(r, q, trip[0].node),
                  expected="[_histogram_encode(x, compression) for x in seqs] with the same seqs passed to _to_triplets", found=show(mat, 90), key="kd matrix rows")
@@ -1970,6 +1980,11 @@ def check_pool(r, rule):
         r.rep.ob(rule + "-ORD", q, False, "the parameter block is written exactly once, unconditionally, before the pool exists", wh(r, q, extra.node),
                  expected="one store dominating Pool(...) and map(...)", found=f"{len(stores)} stores (one per branch or after the pool was created)", key="block stores")
     writer = strip(st["value"])
+    if any(x == ("glob", MOD + "_cal_params") for x in walk(writer)):
+        # lint: the new block is computed from the block the previous call left behind - call history leaks into this call
+        r.rep.ob(rule + "-BLK", q, False, "the parameter block written for a call is a function of that call's arguments only", wh(r, q, st.node),
+                 expected="_cal_params = (values of this call)", found="the stored value reads the previous _cal_params: " + show(writer, 80), key="block from previous block", lint=True)
+        return
     if head(writer) != "tuple":
         raise AnalysisBroken(f"{q}: parameter block is not written as a tuple literal")
     # ---- ORD: the block is written unconditionally before the pool exists and before any worker can run
